@@ -1,0 +1,16 @@
+//go:build verif
+
+// Contracts for the tvc verifier (/verif). Comment-only: with the `verif` tag off this file does not exist,
+// with it on it adds no code. Syntax: /verif/DESIGN.md appendix A.
+
+package controlplane
+
+//@ for C15
+
+//@ func ParsePodNetworksFromAnnotation
+//@   requires pod != nil
+//@   panics
+//@   ensures result1 == nil ==> result0 != nil
+
+//@ func ParsePodNetworksFromRequest
+//@   panics
